@@ -107,6 +107,10 @@ class HistCheck(Check):
         info = {'resp': resp, 'outs': outs, 'prefix_out': prefix_out, 'exception': exc, 'death': death, 'ticks': ticks, 'plan': plan}
         bump(res, 'runs')
         if death or exc:
+            if death and death[0] in ('SIGNAL', 'SANITIZER', 'CPU', 'WALL'):
+                # where exactly a memory error strikes may depend on the address-space layout of the server process:
+                # "the same execution" then means "died the same way"
+                res['hash'] = 'died:' + death[0]
             bump(res, 'died:' + (death[0] if death else 'EXCEPTION'))
             self.on_death(ctx, case, info, res)
             if res['discarded'] is None and not res['violations']:
